@@ -22,6 +22,7 @@ import (
 	styp "github.com/google/gce-tcb-verifier/sign/types"
 
 	"verif/internal/ev"
+	"verif/internal/pki"
 )
 
 func TestMain(m *testing.M) { ev.Main(m) }
@@ -64,11 +65,11 @@ func (r *recCA) PrimaryRootKeyVersion(context.Context) (string, error) {
 }
 func (r *recCA) Certificate(_ context.Context, k string) ([]byte, error) {
 	r.c.add("ca.Certificate")
-	return []byte("certificate of " + k), nil
+	return pki.DevSigningCertDER(), nil
 }
 func (r *recCA) CABundle(_ context.Context, k string) ([]byte, error) {
 	r.c.add("ca.CABundle")
-	return []byte("bundle of " + k), nil
+	return pki.DevBundlePEM(), nil
 }
 func (r *recCA) NewMutation() styp.CertificateAuthorityMutation {
 	r.c.add("ca.NewMutation")
@@ -114,11 +115,12 @@ func (s *recSigner) Sign(ctx context.Context, k string, d styp.Digest, _ crypto.
 			s.atSign = append(s.atSign, g)
 		}()
 	}
-	return []byte("signature by " + k), nil
+	// a real RSA-PSS signature by the key the double's certificate certifies
+	return pki.DevSignDigest(d.SHA256)
 }
 func (s *recSigner) PublicKey(context.Context, string) ([]byte, error) {
 	s.c.add("signer.PublicKey")
-	return nil, errors.New("n/a")
+	return pki.DevPublicKeyDER()
 }
 
 type recManager struct{ c *calls }
